@@ -180,6 +180,22 @@ func genSearchScenario(rng *rand.Rand, profile string, thorough bool) *SearchSce
 		}
 		return sc
 	case "c08":
+		if rng.IntN(10) == 0 {
+			// the hard budget around pondering: while the engine ponders the budget
+			// is suspended, from the ponderhit on it binds (no twins: a ponder
+			// search is ended from outside)
+			sc.TTBytes = 1 << 20
+			for i, n := 0, 2+rng.IntN(4); i < n; i++ {
+				st := SearchStep{Req: Request{Limits: Limits{Nodes: pick(rng, []int{1, 50, 300, 2000})}, Ponder: true, Output: true,
+					PonderHitAtPoll: pick(rng, []int{1, 10, 400, 3000, 9000}), StopAtPoll: 12000 + rng.IntN(20000)}, Play: "best"}
+				if rng.IntN(3) == 0 {
+					st.Req.Depth = 2 + rng.IntN(5)
+				}
+				st.Sched = drawSched(rng)
+				sc.Steps = append(sc.Steps, st)
+			}
+			return sc
+		}
 		sc.TTBytes = pick(rng, []int{32768, 65536, 1 << 20, 1 << 20, 4 << 20})
 		sc.Twins = 1 + rng.IntN(2)
 		sc.Noise = rng.IntN(2) == 0
